@@ -18,7 +18,7 @@ import z3
 
 from . import model as M
 from .ast import N, Program
-from .model import (EMPTY, Int, Bool, KIND, NULL, PYNONE, Ref, Str, BackInserter, Bound, ElemRef, Func, Iter, Lam, NodeVal, OptNode,
+from .model import (EMPTY, Int, Bool, KIND, NULL, PYNONE, Ref, Str, BackInserter, Bound, ElemRef, Func, Iter, Lam, NodeVal, OptNode, PySeqIter,
                     NodeVec, Opaque, PairVec, Ptr, PtrVec, PyObj, ScalarVec, SpecObj, Tup, fresh)
 
 
@@ -542,7 +542,13 @@ class Engine:
         if op in ('++', '--'):
             st, p = self.place(n.c[0], st)
             old = self.read_place(st, p)
-            if isinstance(old, Iter):
+            if isinstance(old, PySeqIter):
+                # ++it pulls the next item: runs user code (__next__) and may raise
+                self.may_call_python(st, '__next__ of a Python iterator', n.get('line'))
+                s_exc = st.clone()
+                self.throw(s_exc, 'pybind11::error_already_set', n.get('line'), 'from __next__')
+                new = PySeqIter(old.ref, old.pos + 1)
+            elif isinstance(old, Iter):
                 new = replace(old, pos=old.pos + (1 if op == '++' else -1))
             else:
                 new = as_int(old) + (1 if op == '++' else -1)
@@ -576,6 +582,9 @@ class Engine:
         from .absmap import MapIt
         if isinstance(v, MapIt):
             return v
+        if isinstance(v, PySeqIter):
+            self.oblige(st, 'II', 'python-iterator-deref:not-at-end', z3.And(0 <= v.pos, v.pos < M.iter_len(v.ref)))
+            return PyObj(M.iter_item(v.ref, v.pos))
         if isinstance(v, Ptr):
             return v
         if isinstance(v, Iter):
@@ -627,6 +636,10 @@ class Engine:
             return outs
         outs = []
         for s, (a, b) in self.ev_seq(n.c[:2], st):
+            if op in ('==', '!=') and (isinstance(a, ElemRef) and isinstance(b, Ptr) and b.oid is None
+                                       or isinstance(b, ElemRef) and isinstance(a, Ptr) and a.oid is None):
+                outs.append((s, z3.BoolVal(op == '!=')))      # the address of a vector element is never null
+                continue
             outs.append((s, self.binop(s, op, a, b)))
         return outs
 
@@ -680,6 +693,14 @@ class Engine:
         from .absmap import MapIt, it_equal
         if isinstance(a, MapIt) and isinstance(b, MapIt):
             return it_equal(st, a, b)
+        if isinstance(a, PySeqIter) and isinstance(b, PySeqIter):
+            if b.pos is None and a.pos is not None:
+                return a.pos >= M.iter_len(a.ref)
+            if a.pos is None and b.pos is not None:
+                return b.pos >= M.iter_len(b.ref)
+            if a.pos is None and b.pos is None:
+                return z3.BoolVal(True)
+            return a.pos == b.pos
         if isinstance(a, Ptr) and isinstance(b, Ptr):
             return z3.BoolVal(a.oid == b.oid)
         if isinstance(a, Ptr) and a.oid is None:
@@ -758,7 +779,8 @@ class Engine:
                 self.assume(st_f, z3.Not(c))
                 (s1, a), = self.ev(n.c[1], st_t)
                 (s2, b), = self.ev(n.c[2], st_f)
-                a, b = self.load(s1, a), self.load(s2, b)
+                if not n.t.rstrip().endswith('*'):
+                    a, b = self.load(s1, a), self.load(s2, b)
                 outs.append((s, self.ite(c, a, b)))
             else:
                 st_t, st_f = s, s.clone()
@@ -1350,6 +1372,8 @@ class Engine:
 
         def root_name(x):
             while True:
+                if x.k == 'CXXThisExpr':
+                    return 'this'
                 if x.k == 'DeclRefExpr':
                     return x.name
                 if x.k in ('MemberExpr', 'UnaryOperator', 'ArraySubscriptExpr', 'CXXMemberCallExpr',
@@ -1364,9 +1388,6 @@ class Engine:
             r = root_name(x)
             if r is not None:
                 vars_.add(r)
-            for d in self.walk(x):
-                if d.k == 'CXXThisExpr':
-                    vars_.add('this')
 
         def visit(x, seen_lams):
             if x.k in ('BinaryOperator',) and x.get('op') == '=':
@@ -1426,6 +1447,8 @@ class Engine:
                 return PyObj(fresh(f'{name}@L{k}', Ref))
             if isinstance(v, Iter):
                 return replace(v, pos=fresh(f'{name}.pos@L{k}', Int))
+            if isinstance(v, PySeqIter):
+                return PySeqIter(v.ref, fresh(f'{name}.pos@L{k}', Int))
             if is_z3(v):
                 return fresh(f'{name}@L{k}', v.sort())
             if isinstance(v, Opaque):
